@@ -45,6 +45,9 @@ package pogreb
 //@   ensures [C01] inv-main-in-log: err == nil ==> slotsInLog(fData[fidOf[idx.main.File]], idx.main.size, theDB().datalog)
 //@   ensures [C01] inv-overflow-in-log: err == nil ==> slotsInLog(fData[fidOf[idx.overflow.File]], idx.overflow.size, theDB().datalog)
 //@   ensures kept: forall i int :: 0 <= i && i < 32767 && old(theDB().datalog.segments[i]) != nil ==> theDB().datalog.segments[i] == old(theDB().datalog.segments[i])
+// Count: one key less exactly when a slot was removed (b is the bucket that held it; at the end of the chain b is empty)
+//@   at return: assert [C01] count-removed: err == nil && b.file != nil ==> idx.numKeys == old(idx.numKeys) - 1
+//@   at return: assert [C01] count-missing: err == nil && b.file == nil ==> idx.numKeys == old(idx.numKeys)
 //@   at return: assert [C01] miss-only-at-chain-end: err == nil ==> it.off == 0 || old(keyOfSlotIs(theDB().datalog, sl, theKey()))
 //@   at call matchKey@1: cases which-file: b.file == idx.main || b.file == idx.overflow
 //@   at call matchKey@1: hint slot-on-disk: slotEncoded(fData[fidOf[b.file.File]], int(b.offset)+16*i, sl) && bucketAt(b.offset, b.file.size) && sl.offset != 0
